@@ -383,13 +383,32 @@ pub fn promote_types_not_equal(ty1: &Type, ty2: &Type) -> Type {
 // promotion suitable for some binary operations, eg +, -, *
 pub fn promote_types(ty1: &Type, ty2: &Type) -> Type {
     if equal_up_to_constness(ty1, ty2) {
-        return ty1.clone();
+        return with_constness(ty1.clone(), promote_constness(ty1, ty2));
     }
     let typ = promote_type_width(ty1, ty2);
     if typ != Type::Void {
         return typ;
     }
-    promote_base_type(ty1, ty2)
+    with_constness(promote_base_type(ty1, ty2), promote_constness(ty1, ty2))
+}
+
+// Return `ty` with its constness replaced by `isconst`. Types that carry no
+// constness are returned unchanged.
+fn with_constness(ty: Type, isconst: IsConst) -> Type {
+    use Type::*;
+    match ty {
+        Bit(_) => Bit(isconst),
+        Int(w, _) => Int(w, isconst),
+        UInt(w, _) => UInt(w, isconst),
+        Float(w, _) => Float(w, isconst),
+        Angle(w, _) => Angle(w, isconst),
+        Complex(w, _) => Complex(w, isconst),
+        Bool(_) => Bool(isconst),
+        Duration(_) => Duration(isconst),
+        Stretch(_) => Stretch(isconst),
+        BitArray(dims, _) => BitArray(dims, isconst),
+        other => other,
+    }
 }
 
 /// Promotes the width of two types if they belong to the same type category.
